@@ -52,6 +52,28 @@ def install_struct_model():
     return True
 
 
+def stub_udf_crc():
+    """UDF descriptor CRCs are computed over bytes that contain symbolic fields; the table-driven CRC realises them.
+    The 8-bit tag checksum (_compute_csum) likewise.  For properties to which the CRC/checksum VALUE is opaque (allocation, layout, re-open) the real udf.crc_ccitt is replaced by
+    a constant on both the record and the parse side.  The CRC itself is decided separately by engine E2 (C10.a)."""
+    if not SYM:
+        return False
+    from pycdlib import udf
+    udf.crc_ccitt = lambda data: 0
+    udf._compute_csum = lambda data: 0
+    return True
+
+
+def stub_progress():
+    """PyCdlib._Progress.call computes min(done+length, total) after every write: with symbolic lengths that is a solver
+    query per write and no property depends on progress reporting -> empty body (logging/formatting class of stub)."""
+    if not SYM:
+        return False
+    from pycdlib import pycdlib as pm
+    pm.PyCdlib._Progress.call = lambda self, length: None
+    return True
+
+
 def post(ok):
     """final value of a harness: the reachability twin returns False once the end is reached"""
     if TWIN:
@@ -66,6 +88,28 @@ def concrete(x):
     from crosshair.tracers import NoTracing
     with NoTracing():
         return type(x) is int
+
+
+def smax_if(cond, a, b):
+    """b if not cond else max(a, b), as a single z3 if-then-else when anything is symbolic (no path fork)"""
+    if not SYM:
+        return max(a, b) if cond else b
+    from crosshair.tracers import NoTracing
+    from crosshair.libimpl.builtinslib import SymbolicInt
+    import z3
+    with NoTracing():
+        def tz(x):
+            return x.var if hasattr(x, 'var') else (z3.BoolVal(x) if isinstance(x, bool) else z3.IntVal(x))
+        if type(cond) is bool and type(a) is int and type(b) is int:
+            return max(a, b) if cond else b
+        if not (hasattr(a, 'var') or type(a) is int) or not (hasattr(b, 'var') or type(b) is int) or not (hasattr(cond, 'var') or type(cond) is bool):
+            sym_ok = False
+        else:
+            sym_ok = True
+        if sym_ok:
+            za, zb, zc = tz(a), tz(b), tz(cond)
+            return SymbolicInt(z3.If(z3.And(zc, za > zb), za, zb))
+    return max(a, b) if cond else b
 
 
 def cdiv(a, b):
@@ -155,8 +199,10 @@ class OutFP:
             else:
                 self.spans.append((self.pos, data))
         self.pos += n
-        if n > 0 and self.pos > self.end:
-            self.end = self.pos
+        if concrete(n) and n == 0:
+            return n
+        # end = max(end, pos) when n > 0 -- built as ONE if-then-else term, not a path fork
+        self.end = smax_if(n > 0, self.pos, self.end)
         return n
 
     def truncate(self, size=None):
